@@ -24,6 +24,7 @@ import (
 type mutation struct {
 	line  int
 	desc  string
+	fn    string
 	apply func()
 }
 
@@ -40,8 +41,9 @@ func main() {
 		os.Exit(2)
 	}
 	var muts []mutation
+	curFn := ""
 	add := func(pos token.Pos, desc string, apply func()) {
-		muts = append(muts, mutation{fset.Position(pos).Line, desc, apply})
+		muts = append(muts, mutation{fset.Position(pos).Line, desc, curFn, apply})
 	}
 	swapOp := map[token.Token]token.Token{
 		token.LSS: token.LEQ, token.LEQ: token.LSS, token.GTR: token.GEQ, token.GEQ: token.GTR,
@@ -79,6 +81,22 @@ func main() {
 		case *ast.FuncDecl:
 			if x.Name.Name == "String" || x.Name.Name == "log" {
 				return false // presentation only
+			}
+			curFn = x.Name.Name
+			if x.Recv != nil && len(x.Recv.List) == 1 {
+				t := x.Recv.List[0].Type
+				if st, ok := t.(*ast.StarExpr); ok {
+					t = st.X
+				}
+				if ix, ok := t.(*ast.IndexExpr); ok {
+					t = ix.X
+				}
+				if ix, ok := t.(*ast.IndexListExpr); ok {
+					t = ix.X
+				}
+				if id, ok := t.(*ast.Ident); ok {
+					curFn = id.Name + ")." + x.Name.Name
+				}
 			}
 		case *ast.IfStmt:
 			add(x.Cond.Pos(), "negate if condition", func() { x.Cond = &ast.UnaryExpr{Op: token.NOT, X: &ast.ParenExpr{X: x.Cond}} })
@@ -128,7 +146,7 @@ func main() {
 	})
 	if *list {
 		for i, m := range muts {
-			fmt.Printf("%d\t%d\t%s\n", i, m.line, m.desc)
+			fmt.Printf("%d\t%d\t%s\t%s\n", i, m.line, m.desc, m.fn)
 		}
 		return
 	}
